@@ -39,6 +39,12 @@ func (l linearInterpolator) interpolate(frac float64) Point {
 	if idx-1 >= 0 {
 		partial -= l.cumulative[idx-1]
 	}
+	if p0.XY == p1.XY {
+		// A zero length segment (repeated vertex) is reached when the
+		// position sought is exactly at its location. Dividing by its length
+		// would give NaN.
+		return p0.AsPoint()
+	}
 	partial /= p0.XY.distanceTo(p1.XY)
 
 	return interpolateCoords(p0, p1, partial).AsPoint()
